@@ -2,7 +2,12 @@ package props
 
 import (
 	"fmt"
+	"net/http"
 	"strings"
+
+	z "github.com/Oudwins/zog"
+	"github.com/Oudwins/zog/parsers/zjson"
+	"github.com/Oudwins/zog/zhttp"
 
 	"zogverif/internal/core"
 	"zogverif/internal/gen"
@@ -33,7 +38,84 @@ func (c14) Info(t core.Tier) core.Info {
 
 func (c14) NumCases(t core.Tier) int { return tierN(t, 12000, 300000) }
 
+// c14Directed: (a) a record without its list field, the schema's Default holding Go struct items whose type has form / query tags: every
+// front end gives the default items; (b) a `key[]` parameter sent once with an empty value is a list with one blank item, like the
+// same record as a Go map.
+type c14Line struct {
+	Sku string `form:"sku_code" query:"sku_code"`
+	Qty int    `form:"quantity" query:"quantity"`
+}
+
+func c14Directed(c *core.Ctx) bool {
+	type order struct {
+		Customer string    `form:"cust" query:"cust"`
+		Lines    []c14Line `form:"lines" query:"lines"`
+	}
+	mk := func() *z.StructSchema {
+		return z.Struct(z.Schema{"customer": z.String().Required(), "lines": z.Slice(z.Struct(z.Schema{"Sku": z.String().Required(), "Qty": z.Int().Required()})).Default([]c14Line{{Sku: "default-sku", Qty: 1}})})
+	}
+	results := map[string]string{}
+	for _, f := range []string{"map", "form", "query", "zjson"} {
+		var d order
+		var data any
+		switch f {
+		case "map":
+			data = map[string]any{"customer": "ann"}
+		case "form":
+			r, _ := http.NewRequest("POST", "/x", strings.NewReader("cust=ann"))
+			r.Header.Set("Content-Type", "application/x-www-form-urlencoded")
+			data = zhttp.Request(r)
+		case "query":
+			r, _ := http.NewRequest("GET", "/x?cust=ann", nil)
+			data = zhttp.Request(r)
+		default:
+			data = zjson.Decode(strings.NewReader(`{"customer":"ann"}`))
+		}
+		m := mk().Parse(data, &d)
+		c.Eval(1)
+		results[f] = fmt.Sprintf("%+v issues=%d", d, len(m))
+	}
+	for f, r := range results {
+		if r != results["map"] || r != "{Customer:ann Lines:[{Sku:default-sku Qty:1}]} issues=0" {
+			c.Violation("front-end-destination-differs|"+f+"|struct-items-of-a-default", map[string]any{"schema": "{customer: Required, lines: Slice(Struct{Sku: Required, Qty: Required}).Default([]Line{{default-sku, 1}})}; Line{Sku `form:sku_code query:sku_code`; Qty `form:quantity query:quantity`}", "record": "{customer: ann} (no lines)", "results": results})
+			return false
+		}
+	}
+	type tagged struct {
+		Tags []string `form:"tags[]" query:"tags[]" zog:"tags[]"`
+	}
+	tsch := func() *z.StructSchema { return z.Struct(z.Schema{"tags": z.Slice(z.String()).Required()}) }
+	res := map[string]string{}
+	for _, f := range []string{"map", "form", "query"} {
+		var d tagged
+		var data any
+		switch f {
+		case "map":
+			data = map[string]any{"tags[]": []any{""}}
+		case "form":
+			r, _ := http.NewRequest("POST", "/x", strings.NewReader("tags[]="))
+			r.Header.Set("Content-Type", "application/x-www-form-urlencoded")
+			data = zhttp.Request(r)
+		default:
+			r, _ := http.NewRequest("GET", "/x?tags[]=", nil)
+			data = zhttp.Request(r)
+		}
+		m := tsch().Parse(data, &d)
+		c.Eval(1)
+		res[f] = fmt.Sprintf("%q issues=%v", d.Tags, dKeys(m))
+	}
+	if res["form"] != res["map"] || res["query"] != res["map"] {
+		c.Violation("front-end-destination-differs|single-blank-list-parameter", map[string]any{"schema": "{tags: Slice(String()).Required()} keyed tags[]", "record": "tags[] = [\"\"] (Go map) / tags[]= (form, query)", "results": res})
+		return false
+	}
+	c.Count("directed_front_end_scenarios", 1)
+	return true
+}
+
 func (c14) RunCase(c *core.Ctx) {
+	if c.Case%300 == 7 && !c14Directed(c) {
+		return
+	}
 	flat := c.R.Intn(10) < 6
 	fo := gen.FrontOpts{Flat: flat, EnvOnly: flat && c.R.Bool(), MaxDepth: 2, MaxFields: 4}
 	n := gen.RecordSchema(c.R, fo)
